@@ -471,50 +471,114 @@ Proof.
   revert H. unfold set_head. zb. intros H. apply orb_true_iff in H. destruct H as [H|H]; zbool; zchar.
 Qed.
 
-(* the first character of a printed search key *)
-Definition skey_head (c : Z) : bool := is_alpha c && negb (py_lower c =? 99) || (c =? 40) || set_head c.
+(* the shape of a printed search key: a keyword first, or "(", or a sequence set *)
+Definition search_names : list string :=
+  ["all"; "keyword"; "answered"; "deleted"; "draft"; "flagged"; "recent"; "seen"; "header"; "bcc"; "cc"; "from";
+   "subject"; "to"; "before"; "on"; "since"; "sentbefore"; "senton"; "sentsince"; "body"; "text"; "larger"; "smaller";
+   "not"; "unanswered"; "undeleted"; "undraft"; "unflagged"; "old"; "unseen"; "unkeyword"; "or"; "new"; "uid"]%string.
 
-Lemma kw_skey_head ch name : head_in (fun c => is_lower c && negb (c =? 99)) (bs name) -> head_in skey_head (kw ch 50 name).
+Lemma hdr_key_cases h name : hdr_key h = Some name ->
+  (h = bs "bcc" /\ name = "bcc"%string) \/ (h = bs "cc" /\ name = "cc"%string) \/ (h = bs "from" /\ name = "from"%string)
+  \/ (h = bs "subject" /\ name = "subject"%string) \/ (h = bs "to" /\ name = "to"%string).
 Proof.
-  unfold kw. destruct (bs name) as [|c k]; [auto|]. cbn [kw_case_from head_in]. intros H.
-  apply andb_true_iff in H. destruct H as [H1 H2]. unfold skey_head.
-  rewrite py_lower_case.
-  assert (E : py_lower c = c) by (unfold py_lower; revert H1; zb; intros H1; zbool;
-    replace (c <=? 90) with false by (symmetry; apply Z.leb_gt; lia);
-    replace (192 <=? c) with false by (symmetry; apply Z.leb_gt; lia); rewrite andb_false_r; reflexivity).
-  rewrite E, H2.
-  assert (A : is_alpha (if c_kw ch 50 0%nat && is_lower c then c - 32 else c) = true).
-  { destruct (c_kw ch 50 0%nat); cbn [andb]; rewrite ?H1; revert H1; zb; intros H1; zbool; zchar. }
-  rewrite A. reflexivity.
+  unfold hdr_key.
+  destruct (beq h (bs "bcc")) eqn:E1; [intros H; inversion H; apply beq_eq in E1; auto|].
+  destruct (beq h (bs "cc")) eqn:E2; [intros H; inversion H; apply beq_eq in E2; auto|].
+  destruct (beq h (bs "from")) eqn:E3; [intros H; inversion H; apply beq_eq in E3; auto 6|].
+  destruct (beq h (bs "subject")) eqn:E4; [intros H; inversion H; apply beq_eq in E4; auto 8|].
+  destruct (beq h (bs "to")) eqn:E5; [intros H; inversion H; apply beq_eq in E5; auto 10|].
+  discriminate.
+Qed.
+Lemma unflag_key_cases f name : unflag_key f = Some name ->
+  (f = bs "\Answered" /\ name = "unanswered"%string) \/ (f = bs "\Deleted" /\ name = "undeleted"%string)
+  \/ (f = bs "\Draft" /\ name = "undraft"%string) \/ (f = bs "\Flagged" /\ name = "unflagged"%string)
+  \/ (f = bs "\Recent" /\ name = "old"%string) \/ (f = bs "\Seen" /\ name = "unseen"%string).
+Proof.
+  unfold unflag_key.
+  destruct (beq f (bs "\Answered")) eqn:E1; [intros H; inversion H; apply beq_eq in E1; auto|].
+  destruct (beq f (bs "\Deleted")) eqn:E2; [intros H; inversion H; apply beq_eq in E2; auto|].
+  destruct (beq f (bs "\Draft")) eqn:E3; [intros H; inversion H; apply beq_eq in E3; auto 6|].
+  destruct (beq f (bs "\Flagged")) eqn:E4; [intros H; inversion H; apply beq_eq in E4; auto 8|].
+  destruct (beq f (bs "\Recent")) eqn:E5; [intros H; inversion H; apply beq_eq in E5; auto 10|].
+  destruct (beq f (bs "\Seen")) eqn:E6; [intros H; inversion H; apply beq_eq in E6; auto 12|].
+  discriminate.
+Qed.
+Lemma is_new_eq l : is_new l = true -> l = [KKeyword (bs "\Recent"); KNot (KKeyword (bs "\Seen"))].
+Proof.
+  unfold is_new. destruct l as [|[| a | | | | | | | | | | |] [|[| | | | | | | |[| b | | | | | | | | | | |]| | | |] [|z l]]]; try discriminate.
+  intros H. apply andb_true_iff in H. destruct H as [H1 H2]. apply beq_eq in H1, H2. subst. reflexivity.
 Qed.
 
-Lemma skey_head_in ch : forall d k, skey_ok d k = true -> head_in skey_head (r_skey ch k).
+Lemma r_skey_shape ch : forall d k, skey_ok (c_opt ch 59) d k = true ->
+  (exists name X, r_skey ch k = kw ch 50 name ++ X /\ In name search_names)
+  \/ (exists X, r_skey ch k = 40 :: X) \/ (exists l, set_ok l = true /\ r_skey ch k = r_set l).
 Proof.
   intros d k Hk.
-  assert (K : forall name X, head_in (fun c => is_lower c && negb (c =? 99)) (bs name) -> head_in skey_head (kw ch 50 name ++ X)).
-  { intros name X H. apply head_in_app. apply kw_skey_head. exact H. }
+  assert (K : forall name X, In name search_names ->
+            (exists name0 X0, kw ch 50 name ++ X = kw ch 50 name0 ++ X0 /\ In name0 search_names)
+            \/ (exists X0, kw ch 50 name ++ X = 40 :: X0) \/ (exists l, set_ok l = true /\ kw ch 50 name ++ X = r_set l)).
+  { intros name X Hin. left. exists name, X. split; [reflexivity|exact Hin]. }
+  assert (K0 : forall name, In name search_names ->
+            (exists name0 X0, kw ch 50 name = kw ch 50 name0 ++ X0 /\ In name0 search_names)
+            \/ (exists X0, kw ch 50 name = 40 :: X0) \/ (exists l, set_ok l = true /\ kw ch 50 name = r_set l)).
+  { intros name Hin. left. exists name, []. split; [rewrite app_nil_r; reflexivity|exact Hin]. }
   destruct k as [|f|h s|w dt|s|s|n|n|k'|a b|l|l|l]; cbn [r_skey].
-  - apply kw_skey_head; reflexivity.
+  - apply K0. cbn. tauto.
   - destruct (sysflag_key f) as [name|] eqn:E.
-    + destruct (sysflag_cases f name E) as [[_ ->]|[[_ ->]|[[_ ->]|[[_ ->]|[[_ ->]|[_ ->]]]]]]; apply kw_skey_head; reflexivity.
-    + apply K; reflexivity.
-  - apply K; reflexivity.
-  - destruct w; apply K; reflexivity.
-  - apply K; reflexivity.
-  - apply K; reflexivity.
-  - apply K; reflexivity.
-  - apply K; reflexivity.
-  - apply K; reflexivity.
-  - apply K; reflexivity.
-  - reflexivity.
-  - cbn [skey_ok] in Hk. eapply head_in_impl; [|apply r_set_head; exact Hk].
-    intros c Hc. unfold skey_head. rewrite Hc. rewrite orb_true_r. reflexivity.
-  - apply K; reflexivity.
+    + destruct (sysflag_cases f name E) as [[_ ->]|[[_ ->]|[[_ ->]|[[_ ->]|[[_ ->]|[_ ->]]]]]]; apply K0; cbn; tauto.
+    + apply K. cbn. tauto.
+  - destruct (if c_opt ch 59 then hdr_key h else None) as [name|] eqn:E.
+    + destruct (c_opt ch 59); [|discriminate].
+      destruct (hdr_key_cases h name E) as [[_ ->]|[[_ ->]|[[_ ->]|[[_ ->]|[_ ->]]]]]; apply K; cbn; tauto.
+    + apply K. cbn. tauto.
+  - destruct w; apply K; cbn; tauto.
+  - apply K. cbn. tauto.
+  - apply K. cbn. tauto.
+  - apply K. cbn. tauto.
+  - apply K. cbn. tauto.
+  - destruct (if c_opt ch 59 then not_alt ch k' else None) as [txt|] eqn:E.
+    + destruct (c_opt ch 59); [|discriminate]. unfold not_alt in E. destruct k'; try discriminate.
+      destruct (unflag_key k) as [name|] eqn:Eu.
+      * replace txt with (kw ch 50 name) by congruence.
+        destruct (unflag_key_cases k name Eu) as [[_ ->]|[[_ ->]|[[_ ->]|[[_ ->]|[[_ ->]|[_ ->]]]]]]; apply K0; cbn; tauto.
+      * destruct (is_atom k); [|discriminate]. replace txt with (kw ch 50 "unkeyword" ++ 32 :: k) by congruence. apply K. cbn. tauto.
+    + apply K. cbn. tauto.
+  - apply K. cbn. tauto.
+  - destruct (c_opt ch 59 && is_new l); [apply K0; cbn; tauto|]. right. left. eexists. reflexivity.
+  - right. right. exists l. split; [exact Hk|reflexivity].
+  - apply K. cbn. tauto.
 Qed.
 
-Lemma skey_head_ok ch d k : skey_ok d k = true -> head_ok (r_skey ch k).
+Definition skey_head (c : Z) : bool := is_alpha c || (c =? 40) || set_head c.
+
+Lemma skey_head_in ch d k : skey_ok (c_opt ch 59) d k = true -> head_in skey_head (r_skey ch k).
+Proof.
+  intros Hk. destruct (r_skey_shape ch d k Hk) as [[name [X [E Hin]]]|[[X E]|[l [Hl E]]]]; rewrite E.
+  - apply head_in_app. apply (head_in_impl is_alpha); [intros c Hc; unfold skey_head; rewrite Hc; reflexivity|].
+    apply kw_head_in; [apply upper_is_alpha|]. cbn in Hin.
+    repeat (destruct Hin as [<-|Hin]; [reflexivity|]). contradiction.
+  - reflexivity.
+  - eapply head_in_impl; [|apply r_set_head; exact Hl]. intros c Hc. unfold skey_head. rewrite Hc, orb_true_r. reflexivity.
+Qed.
+
+Lemma skey_head_ok ch d k : skey_ok (c_opt ch 59) d k = true -> head_ok (r_skey ch k).
 Proof.
   intros H. apply (head_in_ok skey_head); [reflexivity|]. eapply skey_head_in. exact H.
+Qed.
+
+Lemma skey_not_charset ch d k r : skey_ok (c_opt ch 59) d k = true -> try_lit (bs "charset") (r_skey ch k ++ r) = None.
+Proof.
+  intros Hk. destruct (r_skey_shape ch d k Hk) as [[name [X [E Hin]]]|[[X E]|[l [Hl E]]]]; rewrite E.
+  - rewrite <- app_assoc. apply try_lit_kw_none. cbn in Hin.
+    repeat (destruct Hin as [<-|Hin]; [reflexivity|]). contradiction.
+  - reflexivity.
+  - pose proof (r_set_head l Hl) as Hh. destruct (r_set l) as [|c t]; [contradiction|]. cbn [app]. cbn in Hh.
+    unfold try_lit. change (bs "charset") with (99 :: bs "harset"). cbn [match_ci].
+    destruct (Z.eqb_spec (py_lower c) (py_lower 99)) as [Ec|Ec]; [|reflexivity]. exfalso.
+    change (py_lower 99) with 99 in Ec. revert Hh Ec. unfold set_head, py_lower. zb. intros Hh Ec.
+    apply orb_true_iff in Hh. destruct Hh as [Hh|Hh]; zbool;
+      destruct (65 <=? c) eqn:E1, (c <=? 90) eqn:E2, (192 <=? c) eqn:E3, (c <=? 222) eqn:E4, (c =? 215) eqn:E5;
+      cbn [andb negb] in Ec; zbool; lia.
 Qed.
 
 Lemma go_sep_by ch l :
@@ -548,15 +612,22 @@ Ltac look_tok :=
     let x := eval vm_compute in (lookup search_toks (bs n)) in
     change (lookup search_toks (bs n)) with x end; cbn [search_dispatch].
 
+Lemma not_alt_ok_some ch k : not_alt_ok k = true -> exists txt, not_alt ch k = Some txt.
+Proof.
+  unfold not_alt_ok, not_alt. destruct k; try discriminate. destruct (unflag_key k); [eauto|].
+  intros H. rewrite H. eauto.
+Qed.
+
 (* one level of _p_search_key; P is what the keys one level down satisfy *)
 Lemma skb_app ch (nested : parser skey) (P : skey -> Prop) :
   (forall k r, P k -> stops r = true -> nested (r_skey ch k ++ r) = ROk k r) ->
   forall k r, stops r = true ->
     match k with
-    | KNot k' => P k'
+    | KNot k' => c_opt ch 59 && not_alt_ok k' = true \/ P k'
     | KOr a b => P a /\ P b
-    | KAnd l => l = [] \/ (exists x y l', l = x :: y :: l') /\ Forall P l /\ head_ok (sep_by (r_skey ch) l)
-    | _ => skey_ok 0 k = true
+    | KAnd l => c_opt ch 59 && is_new l = true \/ l = []
+                \/ (exists x y l', l = x :: y :: l') /\ Forall P l /\ head_ok (sep_by (r_skey ch) l)
+    | _ => skey_ok false 0 k = true
     end ->
     search_key_body nested (r_skey ch k ++ r) = ROk k r.
 Proof.
@@ -568,9 +639,15 @@ Proof.
         (rewrite search_tok by (try reflexivity; exact Hr)); reflexivity.
     + napp. rewrite search_tok by reflexivity. look_tok.
       psp. pstep ltac:(apply p_atom_app; assumption). reflexivity.
-  - apply andb_true_iff in Hk; destruct Hk as [Hh Hs]. napp. rewrite search_tok by reflexivity. look_tok.
-    psp. pstep ltac:(apply p_lower_astring_app; [exact Hh|reflexivity]). psp.
-    pstep ltac:(apply p_lower_astring_app; [exact Hs|exact Hr]). reflexivity.
+  - apply andb_true_iff in Hk; destruct Hk as [Hh Hs].
+    destruct (if c_opt ch 59 then hdr_key h else None) as [name|] eqn:E.
+    + destruct (c_opt ch 59); [|discriminate].
+      destruct (hdr_key_cases h name E) as [[-> ->]|[[-> ->]|[[-> ->]|[[-> ->]|[-> ->]]]]];
+        napp; rewrite search_tok by reflexivity; look_tok;
+        psp; pstep ltac:(apply p_lower_astring_app; [exact Hs|exact Hr]); reflexivity.
+    + napp. rewrite search_tok by reflexivity. look_tok.
+      psp. pstep ltac:(apply p_lower_astring_app; [exact Hh|reflexivity]). psp.
+      pstep ltac:(apply p_lower_astring_app; [exact Hs|exact Hr]). reflexivity.
   - destruct w; cbn [sdate_name]; napp; rewrite search_tok by reflexivity; look_tok;
       psp; pstep ltac:(apply p_date_app; exact Hk); reflexivity.
   - napp. rewrite search_tok by reflexivity. look_tok.
@@ -581,16 +658,34 @@ Proof.
     psp. pstep ltac:(apply p_number_app; [exact Hk|apply stops_ends_digit; exact Hr]). reflexivity.
   - napp. rewrite search_tok by reflexivity. look_tok.
     psp. pstep ltac:(apply p_number_app; [exact Hk|apply stops_ends_digit; exact Hr]). reflexivity.
-  - napp. rewrite search_tok by reflexivity. look_tok.
-    psp. pstep ltac:(apply Hn; assumption). reflexivity.
+  - (* KNot *)
+    destruct (if c_opt ch 59 then not_alt ch k' else None) as [txt|] eqn:E.
+    + destruct (c_opt ch 59); [|discriminate]. unfold not_alt in E. destruct k' as [|f| | | | | | | | | | |]; try discriminate.
+      destruct (unflag_key f) as [name|] eqn:Eu.
+      * replace txt with (kw ch 50 name) by congruence.
+        destruct (unflag_key_cases f name Eu) as [[-> ->]|[[-> ->]|[[-> ->]|[[-> ->]|[[-> ->]|[-> ->]]]]]];
+          (rewrite search_tok by (try reflexivity; exact Hr)); reflexivity.
+      * destruct (is_atom f) eqn:A; [|discriminate]. replace txt with (kw ch 50 "unkeyword" ++ 32 :: f) by congruence.
+        napp. rewrite search_tok by reflexivity. look_tok.
+        psp. pstep ltac:(apply p_atom_app; assumption). reflexivity.
+    + destruct Hk as [Hk|Hk].
+      * apply andb_true_iff in Hk. destruct Hk as [Ha Hb]. rewrite Ha in E.
+        destruct (not_alt_ok_some ch k' Hb) as [txt Et]. congruence.
+      * napp. rewrite search_tok by reflexivity. look_tok.
+        psp. pstep ltac:(apply Hn; assumption). reflexivity.
   - destruct Hk as [Ha Hb]. napp. rewrite search_tok by reflexivity. look_tok.
     psp. pstep ltac:(apply Hn; [exact Ha|reflexivity]). psp. pstep ltac:(apply Hn; assumption). reflexivity.
-  - rewrite go_sep_by. unfold search_key_body.
-    change (peek_lit [40] ((40 :: sep_by (r_skey ch) l ++ [41]) ++ r)) with true. cbv iota.
-    change (40 :: sep_by (r_skey ch) l ++ [41]) with (r_paren (r_skey ch) l).
-    destruct Hk as [->|[[x [y [l' ->]]] [Hall Hhead]]]; [reflexivity|].
-    rewrite p_paren_list_of_app; [reflexivity|intros _; exact Hhead|].
-    apply Forall_forall. intros k Hin r0 Hr0. apply Hn; [|exact Hr0]. rewrite Forall_forall in Hall. apply Hall. exact Hin.
+  - (* KAnd *)
+    destruct (c_opt ch 59 && is_new l) eqn:En.
+    + apply andb_true_iff in En. destruct En as [_ En]. apply is_new_eq in En. subst l.
+      rewrite search_tok by (try reflexivity; exact Hr). reflexivity.
+    + destruct Hk as [Hk|Hk]; [discriminate Hk|].
+      rewrite go_sep_by. unfold search_key_body.
+      change (peek_lit [40] ((40 :: sep_by (r_skey ch) l ++ [41]) ++ r)) with true. cbv iota.
+      change (40 :: sep_by (r_skey ch) l ++ [41]) with (r_paren (r_skey ch) l).
+      destruct Hk as [->|[[x [y [l' ->]]] [Hall Hhead]]]; [reflexivity|].
+      rewrite p_paren_list_of_app; [reflexivity|intros _; exact Hhead|].
+      apply Forall_forall. intros k Hin r0 Hr0. apply Hn; [|exact Hr0]. rewrite Forall_forall in Hall. apply Hall. exact Hin.
   - unfold search_key_body. unfold peek_lit.
     rewrite (peek1_none set_head 40) by (try lia; try reflexivity; apply r_set_head; exact Hk).
     rewrite set_head_not_alpha by (apply r_set_head; exact Hk).
@@ -599,20 +694,36 @@ Proof.
     psp. pstep ltac:(apply p_msg_set_app; assumption). reflexivity.
 Qed.
 
-Lemma skey_app ch : forall d k r, skey_ok d k = true -> stops r = true ->
+Lemma skey_app ch : forall d k r, skey_ok (c_opt ch 59) d k = true -> stops r = true ->
   p_search_key d (r_skey ch k ++ r) = ROk k r.
 Proof.
   induction d as [|d IH]; intros k r Hk Hr; rewrite p_search_key_unfold.
   - apply (skb_app ch pfail (fun _ => False)); [intros ? ? []|exact Hr|].
     destruct k as [|f|h s|w dt|s|s|n|n|k'|a b|l|l|l]; cbn [skey_ok] in Hk; try discriminate Hk; try exact Hk.
-    destruct l as [|x [|y l]]; try discriminate Hk. left; reflexivity.
-  - apply (skb_app ch (p_search_key d) (fun k => skey_ok d k = true)); [intros; apply IH; assumption|exact Hr|].
+    + destruct (c_opt ch 59 && not_alt_ok k'); [left; reflexivity|discriminate Hk].
+    + destruct (c_opt ch 59 && is_new l); [left; reflexivity|].
+      destruct l as [|x [|y l]]; try discriminate Hk. right. left. reflexivity.
+  - apply (skb_app ch (p_search_key d) (fun k => skey_ok (c_opt ch 59) d k = true)); [intros; apply IH; assumption|exact Hr|].
     destruct k as [|f|h s|w dt|s|s|n|n|k'|a b|l|l|l]; cbn [skey_ok] in Hk; try exact Hk.
+    + destruct (c_opt ch 59 && not_alt_ok k'); [left; reflexivity|right; exact Hk].
     + apply andb_true_iff in Hk. exact Hk.
-    + destruct l as [|x [|y l]]; try discriminate Hk; [left; reflexivity|right].
+    + destruct (c_opt ch 59 && is_new l); [left; reflexivity|right].
+      destruct l as [|x [|y l]]; try discriminate Hk; [left; reflexivity|right].
       split; [eauto|]. split; [apply Forall_forall; rewrite forallb_forall in Hk; exact Hk|].
       rewrite sep_by_cons2. apply head_ok_app. cbn [forallb] in Hk. apply andb_true_iff in Hk.
       destruct Hk as [Hx _]. eapply skey_head_ok. exact Hx.
+Qed.
+
+(* what is well-formed for every spelling is well-formed for the one-token spellings *)
+Lemma skey_ok_alt b : forall d k, skey_ok false d k = true -> skey_ok b d k = true.
+Proof.
+  induction d as [|d IH]; intros k Hk;
+    (destruct k as [|f|h s|w dt|s|s|n|n|k'|a c|l|l|l]; cbn [skey_ok andb] in *; try exact Hk; try discriminate Hk).
+  - destruct (b && is_new l); [reflexivity|exact Hk].
+  - destruct (b && not_alt_ok k'); [reflexivity|apply IH; exact Hk].
+  - apply andb_true_iff in Hk. destruct Hk as [H1 H2]. rewrite (IH _ H1), (IH _ H2). reflexivity.
+  - destruct (b && is_new l); [reflexivity|]. destruct l as [|x [|y l]]; try exact Hk.
+    rewrite forallb_forall in *. intros z Hz. apply IH. apply Hk. exact Hz.
 Qed.
 
 (* ------------------------------------------------------------------ LIST-EXTENDED options *)
@@ -844,14 +955,14 @@ Proof.
   - cbn [app]. rewrite HX. reflexivity.
 Qed.
 
-Lemma p_append_app ch mbox flags dt msg r :
-  cmd_ok (CAppend mbox flags dt msg) = true ->
+Lemma p_append_app ch b mbox flags dt msg r :
+  cmd_okb b (CAppend mbox flags dt msg) = true ->
   p_append (32 :: r_mailbox ch 4 mbox ++ 32 ::
             (match flags with [] => if c_opt ch 10 then [40; 41; 32] else [] | _ => r_flag_list flags ++ [32] end)
             ++ (match dt with None => [] | Some t => r_date_time ch 11 t ++ [32] end)
             ++ r_literal (c_opt ch 12) msg ++ r) = ROk (CAppend mbox flags dt msg) r.
 Proof.
-  cbn [cmd_ok]. intros H. apply andb_true_iff in H; destruct H as [H Hmsg]. apply andb_true_iff in H; destruct H as [H Hdt].
+  cbn [cmd_okb]. intros H. apply andb_true_iff in H; destruct H as [H Hmsg]. apply andb_true_iff in H; destruct H as [H Hdt].
   apply andb_true_iff in H; destruct H as [Hm Hf].
   unfold p_append. psp. pstep ltac:(apply p_mailbox_app; [exact Hm|reflexivity]). psp.
   pstep ltac:(apply p_append_flags_app; [exact Hf|]; destruct dt as [[[[[[[y m] d] h] mi] s] off]|]; reflexivity).
@@ -891,8 +1002,8 @@ Proof.
     intros x Hin. apply flag_head_in. rewrite forallb_forall in Hf. apply Hf. exact Hin.
 Qed.
 
-Lemma p_store_app ch uid set act silent flags r :
-  cmd_ok (CStore uid set act silent flags) = true -> stops r = true -> try_lit sp r = None ->
+Lemma p_store_app ch b uid set act silent flags r :
+  cmd_okb b (CStore uid set act silent flags) = true -> stops r = true -> try_lit sp r = None ->
   p_store uid (32 :: r_set set ++ 32 :: (match act with SReplace => [] | SAdd => [43] | SRemove => [45] end)
                ++ kw ch 16 "flags" ++ (if silent then kw ch 17 ".silent" else []) ++ 32 ::
                (match flags with
@@ -900,44 +1011,31 @@ Lemma p_store_app ch uid set act silent flags r :
                 | _ => if c_opt ch 18 then sep_by (fun f => f) flags else r_flag_list flags
                 end) ++ r) = ROk (CStore uid set act silent flags) r.
 Proof.
-  cbn [cmd_ok]. intros H Hr Hsp. apply andb_true_iff in H; destruct H as [Hs Hf].
+  cbn [cmd_okb]. intros H Hr Hsp. apply andb_true_iff in H; destruct H as [Hs Hf].
   unfold p_store. psp. pstep ltac:(apply p_msg_set_app; [exact Hs|reflexivity]). psp.
   pstep ltac:(apply p_store_action_app). pstep ltac:(apply p_lit_kw). pstep ltac:(apply p_store_silent_app). psp.
   pstep ltac:(apply p_store_flags_app; assumption). reflexivity.
 Qed.
 
-Lemma skey_head_not_c c : skey_head c = true -> py_lower c <> 99.
-Proof.
-  unfold skey_head, set_head. intros H E.
-  apply orb_true_iff in H. destruct H as [H|H]; [apply orb_true_iff in H; destruct H as [H|H]|].
-  - apply andb_true_iff in H. destruct H as [_ H]. apply negb_true_iff in H. apply Z.eqb_neq in H. contradiction.
-  - apply Z.eqb_eq in H. subst c. discriminate E.
-  - revert H E. unfold py_lower. zb. intros H E. apply orb_true_iff in H. destruct H as [H|H]; zbool;
-      destruct (65 <=? c) eqn:E1, (c <=? 90) eqn:E2, (192 <=? c) eqn:E3, (c <=? 222) eqn:E4, (c =? 215) eqn:E5;
-      cbn [andb negb] in E; zbool; lia.
-Qed.
-
 Lemma p_search_app ch uid charset keys r :
-  cmd_ok (CSearch uid charset keys) = true -> stops r = true -> try_lit sp r = None ->
+  cmd_okb (c_opt ch 59) (CSearch uid charset keys) = true -> stops r = true -> try_lit sp r = None ->
   p_search uid (32 :: (if beq charset (bs "us-ascii") && negb (c_opt ch 13) then []
                        else kw ch 14 "charset" ++ 32 :: r_astring (c_str ch 15 charset) charset ++ [32])
                 ++ sep_by (r_skey ch) keys ++ r) = ROk (CSearch uid charset keys) r.
 Proof.
-  cbn [cmd_ok]. intros H Hr Hsp. apply andb_true_iff in H; destruct H as [Hc Hk].
+  cbn [cmd_okb]. intros H Hr Hsp. apply andb_true_iff in H; destruct H as [Hc Hk0].
   destruct keys as [|k keys]; [discriminate|].
+  assert (Hk : forallb (skey_ok (c_opt ch 59) 32) (k :: keys) = true) by exact Hk0.
   unfold p_search. psp.
   assert (Hcs : p_search_charset ((if beq charset (bs "us-ascii") && negb (c_opt ch 13) then []
                        else kw ch 14 "charset" ++ 32 :: r_astring (c_str ch 15 charset) charset ++ [32])
                 ++ sep_by (r_skey ch) (k :: keys) ++ r) = ROk charset (sep_by (r_skey ch) (k :: keys) ++ r)).
   { unfold p_search_charset. destruct (beq charset (bs "us-ascii") && negb (c_opt ch 13)) eqn:E.
     - cbn [app]. apply andb_true_iff in E. destruct E as [E _]. apply beq_eq in E. subst charset.
-      assert (Hh : head_in skey_head (sep_by (r_skey ch) (k :: keys) ++ r)).
-      { apply head_in_app. apply (sep_by_head _ (head_in skey_head)); [discriminate|intros x s _; apply head_in_app|].
-        intros x Hin. rewrite forallb_forall in Hk. eapply skey_head_in. apply Hk. exact Hin. }
-      destruct (sep_by (r_skey ch) (k :: keys) ++ r) as [|c t]; [contradiction|]. cbn in Hh.
-      unfold try_lit. change (bs "charset") with (99 :: bs "harset"). cbn [match_ci].
-      destruct (Z.eqb_spec (py_lower c) (py_lower 99)) as [E|E]; [|reflexivity].
-      exfalso. apply (skey_head_not_c c Hh). exact E.
+      assert (Hx : skey_ok (c_opt ch 59) 32 k = true) by (cbn [forallb] in Hk; apply andb_true_iff in Hk; apply Hk).
+      destruct keys as [|k2 keys].
+      + cbn [sep_by]. rewrite (skey_not_charset ch 32 k r Hx). reflexivity.
+      + rewrite sep_by_cons2, <- app_assoc. rewrite (skey_not_charset ch 32 k _ Hx). reflexivity.
     - napp. rewrite try_lit_kw. psp. pstep ltac:(apply p_lower_astring_app; [exact Hc|reflexivity]). psp. reflexivity. }
   pstep ltac:(exact Hcs).
   pstep ltac:(apply p_list_of_app; [discriminate| |exact Hr|exact Hsp];
@@ -953,15 +1051,15 @@ Definition list_head (c : Z) : bool := list_char c || (c =? 34) || (c =? 123).
 Lemma pattern_head_in ch site p : head_in list_head (r_pattern ch site p).
 Proof. unfold r_pattern. destruct (beq p inbox); apply list_head_in. Qed.
 
-Lemma p_list_app ch lsub sel ref pat pats ret st r :
-  cmd_ok (CList lsub sel ref pat pats ret st) = true -> stops r = true -> try_lit sp r = None ->
+Lemma p_list_app ch b lsub sel ref pat pats ret st r :
+  cmd_okb b (CList lsub sel ref pat pats ret st) = true -> stops r = true -> try_lit sp r = None ->
   p_list lsub (32 :: r_sel_opts ch sel ++ r_mailbox ch 4 ref ++ 32 ::
                (match pats with
                 | [] => r_list_mailbox (c_str ch 6 pat) pat
                 | _ => r_paren (r_pattern ch 7) pats
                 end) ++ r_ret_opts ch ret st ++ r) = ROk (CList lsub sel ref pat pats ret st) r.
 Proof.
-  cbn [cmd_ok]. intros H Hr Hsp. apply andb_true_iff in H; destruct H as [H Hst]. apply andb_true_iff in H; destruct H as [H Hp].
+  cbn [cmd_okb]. intros H Hr Hsp. apply andb_true_iff in H; destruct H as [H Hst]. apply andb_true_iff in H; destruct H as [H Hp].
   apply andb_true_iff in H; destruct H as [Hsel Href].
   unfold p_list. psp.
   pstep ltac:(apply p_sel_part; [exact Hsel|apply head_in_app; apply r_mailbox_head_in]).
@@ -1024,13 +1122,13 @@ Ltac kwcmd :=
   erewrite cmd_kw; [|reflexivity|discriminate|reflexivity|vm_compute; reflexivity|reflexivity|(intros _; reflexivity) || (let Hq := fresh in intros Hq; discriminate Hq)|].
 
 Theorem parse_render_gen ch tag c r :
-  tag_ok tag = true -> cmd_ok c = true -> stops r = true -> try_lit sp r = None ->
+  tag_ok tag = true -> cmd_okb (c_opt ch 59) c = true -> stops r = true -> try_lit sp r = None ->
   parse_core (tag ++ 32 :: r_cmd ch c ++ r) = ROk (mkAst tag c) r.
 Proof.
   intros Ht Hc Hr Hsp. rewrite parse_core_tail by exact Ht.
   destruct c as [n| |set|mech|u p|m mbox|a b|lsub sel ref pat pats ret st|mbox atts|params|mbox flags dt msg
                  |uid charset keys|uid set atts|uid set act silent flags|uid set mbox|uid set mbox];
-    cbn [r_cmd]; cbn [cmd_ok] in Hc.
+    cbn [r_cmd]; cbn [cmd_okb] in Hc.
   - (* no argument *)
     change (kw ch 0 (noarg_name n) ++ r) with (r_uid ch false ++ kw ch 0 (noarg_name n) ++ r).
     destruct n; cbn [noarg_name]; (kwcmd; [reflexivity|exact Hr]).
@@ -1057,7 +1155,7 @@ Proof.
   - napp. change (kw ch 0 (if lsub then "lsub" else "list")%string ++ ?x)
       with (r_uid ch false ++ kw ch 0 (if lsub then "lsub" else "list")%string ++ x).
     destruct lsub; (kwcmd; [|reflexivity]); cbn [p_command_body];
-      (pstep ltac:(apply p_list_app; assumption)); reflexivity.
+      (pstep ltac:(apply (p_list_app ch (c_opt ch 59)); assumption)); reflexivity.
   - napp. change (kw ch 0 "status" ++ ?x) with (r_uid ch false ++ kw ch 0 "status" ++ x).
     kwcmd; [|reflexivity]. cbn [p_command_body].
     pstep ltac:(idtac; psp; pstep ltac:(apply p_mailbox_app; [exact Hc|reflexivity]); psp;
@@ -1068,14 +1166,14 @@ Proof.
     pstep ltac:(apply p_id_app; assumption). reflexivity.
   - napp. change (kw ch 0 "append" ++ ?x) with (r_uid ch false ++ kw ch 0 "append" ++ x).
     kwcmd; [|reflexivity]. cbn [p_command_body].
-    pstep ltac:(apply p_append_app; exact Hc). reflexivity.
+    pstep ltac:(apply (p_append_app ch (c_opt ch 59)); exact Hc). reflexivity.
   - napp. kwcmd; [|reflexivity]. cbn [p_command_body].
     pstep ltac:(apply p_search_app; assumption). reflexivity.
   - apply andb_true_iff in Hc. destruct Hc as [Hs Ha]. napp. kwcmd; [|reflexivity]. cbn [p_command_body].
     pstep ltac:(idtac; psp; pstep ltac:(apply p_msg_set_app; [exact Hs|reflexivity]); psp;
                 pstep ltac:(apply p_fetch_atts_app; assumption); reflexivity). reflexivity.
   - napp. kwcmd; [|reflexivity]. cbn [p_command_body].
-    pstep ltac:(apply p_store_app; assumption). reflexivity.
+    pstep ltac:(apply (p_store_app ch (c_opt ch 59)); assumption). reflexivity.
   - apply andb_true_iff in Hc. destruct Hc as [Hs Hm]. napp. kwcmd; [|reflexivity]. cbn [p_command_body].
     pstep ltac:(idtac; psp; pstep ltac:(apply p_msg_set_app; [exact Hs|reflexivity]); psp;
                 pstep ltac:(apply p_mailbox_app; assumption); reflexivity). reflexivity.
@@ -1086,10 +1184,23 @@ Qed.
 
 Definition fin (ch : choices) : list Z := if c_opt ch 99 then [13; 10] else [].
 
+Lemma cmd_okb_alt b c : cmd_okb false c = true -> cmd_okb b c = true.
+Proof.
+  destruct c; cbn [cmd_okb]; try (intros H; exact H).
+  intros H. apply andb_true_iff in H. destruct H as [H1 H2]. rewrite H1. cbn [andb].
+  destruct keys as [|k keys]; [exact H2|]. rewrite forallb_forall in *. intros x Hx. apply skey_ok_alt. apply H2. exact Hx.
+Qed.
+
+Theorem parse_core_render_b a ch : wfb (c_opt ch 59) a = true -> parse_core (render a ch) = ROk a (fin ch).
+Proof.
+  destruct a as [tag c]. unfold wfb, render. cbn [a_tag a_cmd]. intros H. apply andb_true_iff in H. destruct H as [Ht Hc].
+  fold (fin ch). apply parse_render_gen; [exact Ht|exact Hc| |]; unfold fin; destruct (c_opt ch 99); reflexivity.
+Qed.
+
 Theorem parse_core_render a ch : wf a = true -> parse_core (render a ch) = ROk a (fin ch).
 Proof.
-  destruct a as [tag c]. unfold wf, render. cbn [a_tag a_cmd]. intros H. apply andb_true_iff in H. destruct H as [Ht Hc].
-  fold (fin ch). apply parse_render_gen; [exact Ht|exact Hc| |]; unfold fin; destruct (c_opt ch 99); reflexivity.
+  intros H. apply parse_core_render_b. unfold wf, wfb in *. apply andb_true_iff in H. destruct H as [Ht Hc].
+  rewrite Ht. cbn [andb]. apply cmd_okb_alt. exact Hc.
 Qed.
 
 Theorem parse_render a ch : wf a = true -> parse (render a ch) = POk a.
@@ -1104,3 +1215,7 @@ Theorem parse_rest_render a ch : wf a = true -> at_end (parse_rest (render a ch)
 Proof.
   intros H. unfold parse_rest. rewrite parse_core_render by exact H. unfold fin. destruct (c_opt ch 99); reflexivity.
 Qed.
+
+(* the canonical sentence of what the parser produces *)
+Theorem parse_core_render_canon a : wf_canon a = true -> parse_core (render a canon) = ROk a [].
+Proof. intros H. apply (parse_core_render_b a canon). exact H. Qed.
